@@ -145,6 +145,8 @@ struct FileSpec {
     imports: Vec<Import>,
     /// spread density: 0 = none, n = one in n
     spread: u32,
+    /// fragments that no operation and no other fragment of the file spreads (colocated fragments other modules import)
+    never_spread: Vec<String>,
 }
 
 fn q(name: &str) -> Local {
@@ -224,7 +226,7 @@ fn render_file(spec: &FileSpec, rng: &mut Rng) -> (String, Vec<(String, String)>
                 if *kind == "query" && spec.spread > 0 {
                     let (mut query, mut user) = (vec![], vec![]);
                     for (_, n, on) in &frag_index {
-                        if rng.chance(1, spec.spread) {
+                        if rng.chance(1, spec.spread) && !spec.never_spread.contains(n) {
                             if *on == "Query" { query.push(n.clone()) } else { user.push(n.clone()) }
                         }
                     }
@@ -245,7 +247,7 @@ fn render_file(spec: &FileSpec, rng: &mut Rng) -> (String, Vec<(String, String)>
                 if spec.spread > 0 {
                     let mut inner = vec![];
                     for (j, n, on2) in &frag_index {
-                        if *j > i && on2 == on && n != name && rng.chance(1, spec.spread + 1) {
+                        if *j > i && on2 == on && n != name && rng.chance(1, spec.spread + 1) && !spec.never_spread.contains(n) {
                             inner.push(n.clone());
                         }
                     }
@@ -262,7 +264,8 @@ fn render_file(spec: &FileSpec, rng: &mut Rng) -> (String, Vec<(String, String)>
 }
 
 fn fixed_files() -> Vec<(&'static str, FileSpec)> {
-    let f = |locals: Vec<Local>, imports: Vec<Import>, spread: u32| FileSpec { locals, imports, spread };
+    let f = |locals: Vec<Local>, imports: Vec<Import>, spread: u32| FileSpec { locals, imports, spread, never_spread: vec![] };
+    let unused = |mut s: FileSpec, names: &[&str]| { s.never_spread = names.iter().map(|n| n.to_string()).collect(); s };
     vec![
         ("one-named-query", f(vec![q("getUser")], vec![], 0)),
         ("one-anonymous-query", f(vec![anon("query")], vec![], 0)),
@@ -284,6 +287,9 @@ fn fixed_files() -> Vec<(&'static str, FileSpec)> {
         ("fragment-named-class(reserved word)", f(vec![q("a"), fr("class", "Query")], vec![], 0)),
         ("anonymous+named(check rejects)", f(vec![anon("query"), q("a")], vec![], 0)),
         ("same-name-query+mutation(check rejects)", f(vec![q("A"), opk("mutation", "A")], vec![], 0)),
+        // own fragments the file's operations do not reach, next to imports whose fragments they do spread
+        ("query+used-import+own-fragment-not-spread", unused(f(vec![q("page"), fr("Card", "User")], vec![imp(true, &[("F", "Query"), ("U", "User")], &[])], 1), &["Card"])),
+        ("query+specific-import+two-own-fragments-one-not-spread", unused(f(vec![fr("Card", "User"), q("page"), fr("Row", "Query")], vec![imp(false, &[("U", "User")], &[("Other", "User")])], 1), &["Card", "U"])),
         ("three-queries+fragments", f(vec![q("first"), fr("F", "Query"), q("second"), fr("G", "User"), q("Third")], vec![], 2)),
     ]
 }
@@ -323,6 +329,9 @@ fn random_file(rng: &mut Rng) -> FileSpec {
     };
     for _ in 0..nfr {
         let (n, on) = pick_frag(rng, &mut used_fr);
+        if rng.chance(1, 4) {
+            spec.never_spread.push(n.clone());
+        }
         locals.push(Local::Frag { name: n, on });
     }
     rng.shuffle(&mut locals);
@@ -871,30 +880,37 @@ fn abi_result() -> String {
     String::from_utf8_lossy(unsafe { std::slice::from_raw_parts(p, n) }).into_owned()
 }
 
-/// (iii): the loader's extern "C" ABI, driven the way packages/loader-core does
-fn real_loader(case: &Case) -> Result<String, String> {
-    if !abi_call_str(&case.config_text, |p, n| loader_native::load_config(p, n)) {
+/// (iii): the loader's extern "C" ABI, driven the way packages/loader-core does.
+/// Runs in the session worker (child process) only: a panic inside an `extern "C"` function aborts the process.
+fn real_loader_texts(config_text: &str, main: &str, imports: &[(String, String)]) -> Result<String, String> {
+    use session::mark;
+    mark("load_config");
+    if !abi_call_str(config_text, |p, n| loader_native::load_config(p, n)) {
         return Err("load_config returned false".into());
     }
-    let id = abi_call_str(MAIN_PATH, |fp, fl| abi_call_str(&case.main, |sp, sl| loader_native::initiate_task(fp, fl, sp, sl)));
+    mark("initiate_task");
+    let id = abi_call_str(MAIN_PATH, |fp, fl| abi_call_str(main, |sp, sl| loader_native::initiate_task(fp, fl, sp, sl)));
     if id == 0 {
         return Err(format!("initiate_task failed: {}", abi_result()));
     }
     let mut result = Err("too many rounds of required files".to_string());
     for _ in 0..16 {
+        mark("get_required_files");
         if !loader_native::get_required_files(id) {
             result = Err(format!("get_required_files failed: {}", abi_result()));
             break;
         }
         let req: Vec<String> = abi_result().split('\n').filter(|s| !s.is_empty()).map(|s| s.to_string()).collect();
         if req.is_empty() {
+            mark("emit_js");
             result = if loader_native::emit_js(id) { Ok(abi_result()) } else { Err(format!("emit_js failed: {}", abi_result())) };
             break;
         }
         let mut failed = None;
         for r in req {
-            match case.imports.iter().find(|(p, _)| *p == r) {
+            match imports.iter().find(|(p, _)| *p == r) {
                 Some((p, t)) => {
+                    mark("load_file");
                     if !abi_call_str(p, |fp, fl| abi_call_str(t, |sp, sl| loader_native::load_file(id, fp, fl, sp, sl))) {
                         failed = Some(format!("load_file failed: {}", abi_result()));
                     }
@@ -907,8 +923,38 @@ fn real_loader(case: &Case) -> Result<String, String> {
             break;
         }
     }
+    mark("free_task");
     loader_native::free_task(id);
+    mark("");
     result
+}
+
+fn loaders_in(client: &mut session::Client, cases: &[Case]) -> Vec<LoaderOut> {
+    let reqs: Vec<Value> = cases.iter().map(|c| json!({"config_text": c.config_text, "main": c.main, "imports": c.imports.iter().map(|(p, t)| json!([p, t])).collect::<Vec<_>>()})).collect();
+    client.singles(&reqs).into_iter().map(|a| match a {
+        session::Answer::Ok(v) => match (v["js"].as_str(), v["err"].as_str()) {
+            (Some(js), _) => LoaderOut::Done(Ok(js.to_string())),
+            (_, Some(e)) => LoaderOut::Done(Err(e.to_string())),
+            _ => LoaderOut::Done(Err(format!("the worker answered {v}"))),
+        },
+        session::Answer::Died(d) => LoaderOut::Abort(d),
+    }).collect()
+}
+
+/// what the one-at-a-time loader run of a case (in the worker process) came to
+#[derive(Clone, Debug)]
+enum LoaderOut {
+    Done(Result<String, String>),
+    /// the loader killed the worker process
+    Abort(session::Death),
+}
+impl LoaderOut {
+    fn as_result(&self) -> Result<String, String> {
+        match self {
+            LoaderOut::Done(r) => r.clone(),
+            LoaderOut::Abort(d) => Err(format!("the loader aborts in {}: {}", d.call, d.why)),
+        }
+    }
 }
 
 /// (i'): the CLI binary in a scratch project; returns (extension of the declaration file of main.graphql, its text)
@@ -959,6 +1005,9 @@ struct Ctx<'a> {
     /// replay mode: put the real texts into the result notes
     dump: bool,
     worker_seconds: f64,
+    loader_seconds: f64,
+    /// the child process in which every loader ABI call runs
+    client: session::Client,
 }
 
 fn consts_of(stmts: &[Sexp]) -> Vec<(String, usize, bool)> {
@@ -988,14 +1037,23 @@ fn value_exports(stmts: &[Sexp]) -> Vec<(String, String)> {
 impl<'a> Ctx<'a> {
     fn run(&mut self, cases: &[Case]) {
         let reqs: Vec<Sexp> = cases.iter().map(|c| c.request()).collect();
-        let answers = self.drv.batch(&reqs);
-        for (case, ans) in cases.iter().zip(answers.iter()) {
-            self.one(case, ans, &reqs);
+        // the Lean driver and the loader worker are two child processes: let them work at the same time
+        let t0 = std::time::Instant::now();
+        let (drv, client) = (&mut *self.drv, &mut self.client);
+        let (answers, loaders) = std::thread::scope(|sc| {
+            let h = sc.spawn(move || loaders_in(client, cases));
+            let a = drv.batch(&reqs);
+            (a, h.join().expect("loader thread"))
+        });
+        self.loader_seconds += t0.elapsed().as_secs_f64();
+        for ((case, ans), pre) in cases.iter().zip(answers.iter()).zip(loaders.iter()) {
+            self.judge(case, ans, None, pre);
         }
     }
 
-    fn one(&mut self, case: &Case, ans: &Sexp, _reqs: &[Sexp]) {
-        self.judge(case, ans, None);
+    /// the one-at-a-time loader run of every case, in the worker process
+    fn loaders(&mut self, cases: &[Case]) -> Vec<LoaderOut> {
+        loaders_in(&mut self.client, cases)
     }
 
     /// an O failure; in an interleaved session the signature gets the prefix `interleaved:` and the call trace is appended
@@ -1014,7 +1072,7 @@ impl<'a> Ctx<'a> {
     /// `inter = None`: one case, the loader driven one task at a time (K and O).
     /// `inter = Some(..)`: the module came out of an interleaved session; judged in O only, by the property's wording,
     /// against the declaration file generated for that file (signatures `interleaved:*`, replay case = the session).
-    fn judge(&mut self, case: &Case, ans: &Sexp, inter: Option<&Inter>) {
+    fn judge(&mut self, case: &Case, ans: &Sexp, inter: Option<&Inter>, pre: &LoaderOut) {
         self.rep.evaluations += 1;
         let cj = match inter {
             Some(i) => i.session.clone(),
@@ -1061,9 +1119,15 @@ impl<'a> Ctx<'a> {
         };
         // (iii)
         let history = inter.and_then(|i| i.history_decl.as_ref());
-        let loader_result = match inter {
-            Some(i) if history.is_none() => i.loader.clone(),
-            _ => real_loader(case),
+        let loader_result = match (inter, pre) {
+            (Some(i), _) if history.is_none() => i.loader.clone(),
+            (_, LoaderOut::Done(r)) => r.clone(),
+            (_, LoaderOut::Abort(d)) => {
+                // no module at all, and the bundler process is gone
+                self.rep.o_cases += 1;
+                self.ofail(inter, &format!("loader-abort:{}", d.call), &format!("the loader process dies while it builds this file one task at a time ({}); no module is produced", d.why), cj);
+                return;
+            }
         };
         let loader = match loader_result {
             Ok(js) => js,
@@ -1602,16 +1666,16 @@ fn random_session(proj: &Project, rng: &mut Rng) -> SessionSpec {
 
 impl<'a> Ctx<'a> {
     /// the roots one at a time (K and O as for any case), then the given sessions on one loader instance each
-    fn run_project(&mut self, client: &mut session::Client, proj: &Project, specs: &[SessionSpec], label: &str) {
+    fn run_project(&mut self, proj: &Project, specs: &[SessionSpec], label: &str) {
         self.run(&proj.roots);
-        let reference: Vec<Result<String, String>> = proj.roots.iter().map(real_loader).collect();
+        let reference: Vec<Result<String, String>> = self.loaders(&proj.roots).iter().map(|l| l.as_result()).collect();
         let mut all = vec![SessionSpec::one_at_a_time(proj.ntasks())];
         all.extend(specs.iter().cloned());
         let all_json: Vec<Value> = all.iter().map(|s| s.to_json()).collect();
         let base = proj.request_base();
         let base_hash = nvh::report::fnv(&base.to_string());
         let t0 = std::time::Instant::now();
-        let answers = client.run(&base, &all_json);
+        let answers = self.client.run(&base, &all_json);
         self.worker_seconds += t0.elapsed().as_secs_f64();
         // the fresh one-at-a-time session of the worker (several builds, one after the other, on one instance)
         let mut sequential: Vec<Result<String, String>> = reference.clone();
@@ -1621,11 +1685,11 @@ impl<'a> Ctx<'a> {
             let v = match ans {
                 session::Answer::Ok(v) if v.get("out").is_some() => v,
                 session::Answer::Ok(v) => {
-                    self.rep.fail("O", "interleaved:loader-abort", &format!("the loader panics in a session of {} builds (worker answered {v})", proj.ntasks()), sj);
+                    self.rep.fail("O", "interleaved:loader-abort:unknown-call", &format!("the loader panics in a session of {} builds (worker answered {v})", proj.ntasks()), sj);
                     continue;
                 }
-                session::Answer::Died(why) => {
-                    self.rep.fail("O", "interleaved:loader-abort", &format!("the loader process dies in a session of {} builds: {why}; no module for any file", proj.ntasks()), sj);
+                session::Answer::Died(d) => {
+                    self.rep.fail("O", &format!("interleaved:loader-abort:{}", d.call), &format!("the loader process dies in a session of {} builds: {}; no module for any file", proj.ntasks(), d.why), sj);
                     continue;
                 }
             };
@@ -1666,13 +1730,13 @@ impl<'a> Ctx<'a> {
                 let inter = Inter { loader: got, sequential: reference[k].clone(), session: sj.clone(), root: k, path: proj.task_path(k), trace: trace.clone(), history_decl: None };
                 let ans = self.drv.batch(&[case.request()]);
                 if let Some(a) = ans.first() {
-                    self.judge(case, a, Some(&inter));
+                    self.judge(case, a, Some(&inter), &LoaderOut::Done(Err(String::new())));
                 }
             }
         }
     }
 
-    fn interleaved_stream(&mut self, client: &mut session::Client, rng: &mut Rng, thorough: bool) {
+    fn interleaved_stream(&mut self, rng: &mut Rng, thorough: bool) {
         let cli = !self.cli.is_empty();
         let pick = |q: usize, t: usize| if thorough { t } else { q };
         // (a) two builds, every order of their single calls
@@ -1686,7 +1750,7 @@ impl<'a> Ctx<'a> {
                 schedule.insert(0, None);
                 SessionSpec { schedule, abandon: vec![None; 2], reverse_loads: false }
             }).collect();
-            self.run_project(client, &proj, &sessions, "2-builds-every-order-of-calls");
+            self.run_project(&proj, &sessions, "2-builds-every-order-of-calls");
         }
         // (b) three builds, every order of their stretches (start / supply imported files / finish)
         for i in 0..pick(2, 12) {
@@ -1694,8 +1758,10 @@ impl<'a> Ctx<'a> {
             let proj = make_project(random_cfg(rng), &specs, vec![], rng, cli);
             let groups: Vec<Vec<usize>> = (0..3).map(|k| proj.groups(k)).collect();
             let counts: Vec<usize> = groups.iter().map(|g| g.len()).collect();
-            let sessions: Vec<SessionSpec> = interleavings(&counts).into_iter().map(|o| SessionSpec { schedule: expand(&o, &groups, i % 2 == 1), abandon: vec![None; 3], reverse_loads: i % 3 == 2 }).collect();
-            self.run_project(client, &proj, &sessions, "3-builds-every-order-of-stretches");
+            // (quick tier: every order for the first project, every third order for the second)
+            let sessions: Vec<SessionSpec> = interleavings(&counts).into_iter().enumerate().filter(|(n, _)| thorough || i == 0 || n % 3 == 0)
+                .map(|(_, o)| SessionSpec { schedule: expand(&o, &groups, i % 2 == 1), abandon: vec![None; 3], reverse_loads: i % 3 == 2 }).collect();
+            self.run_project(&proj, &sessions, "3-builds-every-order-of-stretches");
         }
         // (c) three builds, one of them given up after its start or while its files are supplied
         for i in 0..pick(1, 6) {
@@ -1709,15 +1775,14 @@ impl<'a> Ctx<'a> {
             let mut abandon = vec![None; 3];
             abandon[victim] = Some(after);
             let sessions: Vec<SessionSpec> = interleavings(&counts).into_iter().map(|o| SessionSpec { schedule: expand(&o, &groups, false), abandon: abandon.clone(), reverse_loads: false }).collect();
-            self.run_project(client, &proj, &sessions, "3-builds-one-given-up");
+            self.run_project(&proj, &sessions, "3-builds-one-given-up");
         }
         // (d) 2–4 builds (+ failing builds), random orders of the single calls, builds given up at random points
-        for i in 0..pick(200, 2000) {
+        for i in 0..pick(120, 2000) {
             let proj = random_project(rng, cli && i % 25 == 0);
             let sessions: Vec<SessionSpec> = (0..pick(8, 12)).map(|_| random_session(&proj, rng)).collect();
-            self.run_project(client, &proj, &sessions, "random");
+            self.run_project(&proj, &sessions, "random");
         }
-        self.rep.extra.insert("interleaved_session_workers_spawned".into(), json!(client.spawned));
     }
 }
 
@@ -1770,6 +1835,8 @@ fn corpus(rng: &mut Rng) -> Vec<Case> {
         make_case(k(&[]), &by("one-named-query"), rng, true),
         make_case(k(&[("defaultExportForOperation", json!(false)), ("mode", json!("standalone-ts-4.0"))]), &by("query+wildcard-import"), rng, true),
         make_case(k(&[("capitalizeOperationNames", json!(false)), ("mode", json!("with-loader-ts-4.0"))]), &by("three-queries+fragments"), rng, true),
+        make_case(k(&[]), &by("query+used-import+own-fragment-not-spread"), rng, true),
+        make_case(k(&[("defaultExportForOperation", json!(false)), ("fragmentVariableSuffix", json!("Fragment"))]), &by("query+specific-import+two-own-fragments-one-not-spread"), rng, true),
     ]
 }
 
@@ -1788,19 +1855,18 @@ fn main() {
         Box::leak(Box::new(resolve_schema_extensions(doc).expect("schema resolves")))
     };
     let schema: &'static SchemaT = Box::leak(Box::new(ast_to_type_system(schema_doc)));
-    loader_native::init(0);
+    // (the loader ABI is never called in this process: see session.rs)
     let cli = args.extra.get("cli").cloned().unwrap_or_default();
     let cli = if Path::new(&cli).exists() { cli } else { String::new() };
     let scratch = PathBuf::from(if args.scratch.is_empty() { std::env::temp_dir().join("nv-c14").to_string_lossy().to_string() } else { args.scratch.clone() });
-    let mut ctx = Ctx { rep: &mut rep, drv: &mut drv, schema, cli: cli.clone(), scratch, dump: args.replay.is_some(), worker_seconds: 0.0 };
+    let mut ctx = Ctx { rep: &mut rep, drv: &mut drv, schema, cli: cli.clone(), scratch, dump: args.replay.is_some(), worker_seconds: 0.0, loader_seconds: 0.0, client: session::Client::new() };
 
     if let Some(path) = &args.replay {
         let v: Value = serde_json::from_str(&std::fs::read_to_string(path).expect("replay file")).expect("replay json");
         if v["case"]["kind"] == "history" {
             ctx.run_history(&history::history_from_json(&v["case"]), "replay");
         } else if v["case"]["kind"] == "interleaved" {
-            let mut client = session::Client::new();
-            ctx.run_project(&mut client, &Project::from_json(&v["case"]), &[SessionSpec::from_json(&v["case"])], "replay");
+            ctx.run_project(&Project::from_json(&v["case"]), &[SessionSpec::from_json(&v["case"])], "replay");
         } else {
             ctx.run(&[Case::from_json(&v["case"])]);
         }
@@ -1820,10 +1886,9 @@ fn main() {
 
     // interleaved loader sessions (own random stream: the other streams do not depend on it)
     {
-        let mut client = session::Client::new();
         let mut irng = Rng::new(args.seed ^ 0x1417_5E55_1045);
         let t0 = std::time::Instant::now();
-        ctx.interleaved_stream(&mut client, &mut irng, args.thorough());
+        ctx.interleaved_stream(&mut irng, args.thorough());
         let secs = json!({"total": (t0.elapsed().as_secs_f64() * 10.0).round() / 10.0, "in_session_worker": (ctx.worker_seconds * 10.0).round() / 10.0});
         ctx.rep.extra.insert("interleaved_seconds".into(), secs);
     }
@@ -1920,6 +1985,8 @@ fn main() {
     }
     ctx.run(&batch);
     ctx.rep.count_n("random-cases", nrand as u64);
+    let worker = json!({"processes_spawned": ctx.client.spawned, "deaths": ctx.client.deaths, "driver_and_one_at_a_time_loader_seconds": (ctx.loader_seconds * 10.0).round() / 10.0});
+    ctx.rep.extra.insert("loader_worker_process".into(), worker);
     rep.exhaustive = true;
     rep.notes.push("exhaustive = the full product of {defaultExportForOperation, capitalizeOperationNames} in {absent,true,false} x {operationResultType, variablesType} x {mode absent + 3 modes} for every fixed file and suffix choice".into());
     rep.write(&args);
